@@ -1,8 +1,12 @@
 package sshagent
 
 import (
+	"crypto"
+	"crypto/ecdsa"
 	"crypto/ed25519"
+	"crypto/elliptic"
 	"crypto/rand"
+	"crypto/rsa"
 	"fmt"
 	"net"
 	"sort"
@@ -21,8 +25,10 @@ import (
 // (golang.org/x/crypto/ssh/agent keyring served over a pipe).
 //
 //	a reset
-//	a add <hex comment> <id> cert|plain     put an entry straight into the agent
-//	a upsert <hex comment> <id>             the client's upsert of a fresh certificate
+//	a add <hex comment> <id> cert|plain [<kind>:<bits>]    put an entry straight into the agent
+//	a upsert <hex comment> <id> [<kind>:<bits>]            the client's upsert of a fresh certificate
+//	                                        kind:bits = rsa:3072, ecdsa:256|384|521, ed25519:256 (default);
+//	                                        certificates of one key type share a key and differ by serial
 //	a list                                  -> list {<hex comment>:<id>:c|p} sorted
 func TestVerifC19(t *testing.T) {
 	io := vfOpen(t)
@@ -35,9 +41,66 @@ func TestVerifC19(t *testing.T) {
 	}
 	keyring := agent.NewKeyring()
 	blobID := map[string]string{}
-	mk := func(id string, withCert bool, comment string) agent.AddedKey {
-		pub, priv, _ := ed25519.GenerateKey(rand.Reader)
-		sshPub, _ := ssh.NewPublicKey(pub)
+	// private keys: one per key type for certificates (the blob of a certificate differs by its
+	// serial), fresh ones for plain keys (RSA plain keys come from a small pool of 2048-bit keys)
+	certKeys := map[string]crypto.Signer{}
+	var rsaPool []crypto.Signer
+	rsaNext := 0
+	gen := func(kt string, pooled bool) crypto.Signer {
+		if pooled {
+			if k, ok := certKeys[kt]; ok {
+				return k
+			}
+		}
+		f := strings.Split(kt, ":")
+		bits := 0
+		if len(f) == 2 {
+			bits, _ = strconv.Atoi(f[1])
+		}
+		var k crypto.Signer
+		switch f[0] {
+		case "rsa":
+			if !pooled {
+				// plain RSA keys: the n-th one of a scenario is the n-th key of a lazily grown pool
+				rsaNext++
+				if rsaNext <= len(rsaPool) {
+					return rsaPool[rsaNext-1]
+				}
+				bits = 2048
+			}
+			rk, err := rsa.GenerateKey(rand.Reader, bits)
+			if err != nil {
+				t.Fatal(err)
+			}
+			k = rk
+			if !pooled {
+				rsaPool = append(rsaPool, k)
+			}
+		case "ecdsa":
+			curve := map[int]elliptic.Curve{256: elliptic.P256(), 384: elliptic.P384(), 521: elliptic.P521()}[bits]
+			if curve == nil {
+				t.Fatalf("unsupported curve %d", bits)
+			}
+			ek, err := ecdsa.GenerateKey(curve, rand.Reader)
+			if err != nil {
+				t.Fatal(err)
+			}
+			k = ek
+		default:
+			_, ek, _ := ed25519.GenerateKey(rand.Reader)
+			k = ek
+		}
+		if pooled {
+			certKeys[kt] = k
+		}
+		return k
+	}
+	mk := func(id string, withCert bool, comment string, kt string) agent.AddedKey {
+		priv := gen(kt, withCert)
+		sshPub, err := ssh.NewPublicKey(priv.Public())
+		if err != nil {
+			t.Fatal(err)
+		}
 		k := agent.AddedKey{PrivateKey: priv, Comment: comment}
 		if withCert {
 			n, _ := strconv.Atoi(id)
@@ -85,19 +148,28 @@ func TestVerifC19(t *testing.T) {
 		case f[0] == "reset" && len(f) == 1:
 			keyring = agent.NewKeyring()
 			blobID = map[string]string{}
+			rsaNext = 0
 			io.emit("reset")
-		case f[0] == "add" && len(f) == 4 && (f[3] == "cert" || f[3] == "plain"):
+		case f[0] == "add" && (len(f) == 4 || len(f) == 5) && (f[3] == "cert" || f[3] == "plain"):
+			kt := "ed25519:256"
+			if len(f) == 5 {
+				kt = f[4]
+			}
 			comment, ok := vfUnhex(f[1])
 			if !ok {
 				io.emit("bad-op")
 				continue
 			}
-			if err := keyring.Add(mk(f[2], f[3] == "cert", comment)); err != nil {
+			if err := keyring.Add(mk(f[2], f[3] == "cert", comment, kt)); err != nil {
 				io.emit("error")
 				continue
 			}
 			io.emit("%s", list())
-		case f[0] == "upsert" && len(f) == 3:
+		case f[0] == "upsert" && (len(f) == 3 || len(f) == 4):
+			kt := "ed25519:256"
+			if len(f) == 4 {
+				kt = f[3]
+			}
 			comment, ok := vfUnhex(f[1])
 			if !ok {
 				io.emit("bad-op")
@@ -105,7 +177,7 @@ func TestVerifC19(t *testing.T) {
 			}
 			client, server := net.Pipe()
 			go agent.ServeAgent(keyring, server)
-			err := withAddedKeyUpsertCertIntoAgentConnection(mk(f[2], true, comment), client, logger)
+			err := withAddedKeyUpsertCertIntoAgentConnection(mk(f[2], true, comment, kt), client, logger)
 			client.Close()
 			if err != nil {
 				io.emit("error %s", vfHex(err.Error()))
